@@ -67,12 +67,12 @@ def load_cid(model, name="<cid>"):
 def make_source(ctx, model, table, store, tag="data"):
     """Writes `table` (list of rows of str) in storage `store`; returns (source, raw_rows, input_name)."""
     if store == "delimited-stream":
-        text = storage.delimited_text(table)
+        text = storage.delimited_text(table, model.quote, model.escape)
         return io.StringIO(text, newline=""), storage.delimited_raw_rows(table), "<io>"
     if store == "delimited-file":
         path = os.path.join(ctx.tmp, "%s.csv" % tag)
         with open(path, "w", encoding="utf-8", newline="") as f:
-            f.write(storage.delimited_text(table))
+            f.write(storage.delimited_text(table, model.quote, model.escape))
         return path, storage.delimited_raw_rows(table), os.path.basename(path)
     if store in ("fixed-stream", "fixed-file"):
         widths = model.widths()
